@@ -105,6 +105,14 @@ func (p *parser) parseIdentifier() (result string, err error) {
 		numPrefix++
 	}
 
+	if numPrefix >= 2 {
+		// an identifier may start with two dashes, followed by any name code points, or nothing
+		if len(p.s) > p.i && (nameChar(p.s[p.i]) || p.s[p.i] == '\\') {
+			result, err = p.parseName()
+		}
+		return strings.Repeat(string(prefix), numPrefix) + result, err
+	}
+
 	if len(p.s) <= p.i {
 		return "", errors.New("expected identifier, found EOF instead")
 	}
